@@ -157,3 +157,71 @@ mgr_destroy(Mgr &g)
 }
 
 int mgr_errno(const Mgr &g) { return (int) tc("imb_get_errno", g.img->imb_get_errno, g.m); }
+
+// ---------------------------------------------------------------- library image copies (C16)
+#include <sys/mman.h>
+#include <string>
+#include <vector>
+namespace {
+struct Seg {
+        uintptr_t lo, hi;
+        int prot;
+};
+LibImage g_copy[2];
+bool g_copy_loaded[2] = { false, false };
+std::vector<Seg> g_copy_segs[2];
+
+void
+find_segs(const char *soname, std::vector<Seg> &out)
+{
+        FILE *f = fopen("/proc/self/maps", "r");
+        if (!f)
+                return;
+        char line[1024];
+        while (fgets(line, sizeof line, f)) {
+                if (!strstr(line, soname))
+                        continue;
+                unsigned long lo, hi;
+                char perms[8];
+                if (sscanf(line, "%lx-%lx %7s", &lo, &hi, perms) != 3)
+                        continue;
+                Seg s;
+                s.lo = lo;
+                s.hi = hi;
+                s.prot = (perms[0] == 'r' ? PROT_READ : 0) | (perms[1] == 'w' ? PROT_WRITE : 0) | (perms[2] == 'x' ? PROT_EXEC : 0);
+                out.push_back(s);
+        }
+        fclose(f);
+}
+} // namespace
+
+LibImage *
+image_copy(int which)
+{
+        if (which < 0 || which > 1)
+                return nullptr;
+        if (!g_copy_loaded[which]) {
+                const char *dir = getenv("IMB_LIBDIR_RESOLVED");
+                if (!dir)
+                        return nullptr;
+                std::string path = std::string(dir) + (which == 0 ? "/libimb_A.so" : "/libimb_B.so");
+                if (!load_image(path.c_str(), g_copy[which]))
+                        return nullptr;
+                g_copy[which].name = which == 0 ? "copy A" : "copy B";
+                find_segs(which == 0 ? "libimb_A.so" : "libimb_B.so", g_copy_segs[which]);
+                g_copy_loaded[which] = true;
+        }
+        return &g_copy[which];
+}
+
+bool
+image_protect(LibImage *img, bool inaccessible)
+{
+        int which = img == &g_copy[0] ? 0 : img == &g_copy[1] ? 1 : -1;
+        if (which < 0)
+                return false;
+        for (auto &s : g_copy_segs[which])
+                if (mprotect((void *) s.lo, s.hi - s.lo, inaccessible ? PROT_NONE : s.prot) != 0)
+                        return false;
+        return !g_copy_segs[which].empty();
+}
